@@ -7,7 +7,8 @@ import PkVerif.Lemmas.FaultOverlay
 `FCfg` is the set of trees for which the fault contract (`FRefines`) is proved by recursion over the
 tree: leaves are memory stores behind ANY failure schedule, the cache of a proxycache is an evicting
 memory cache or a memory store behind ANY failure schedule, inner nodes are namespace, proxycache,
-overlay, shard, and the STRICT variants of replica and cond (`replica2StrictImpl`, `cond2StrictImpl`:
+overlay, shard (two-way, with the tree's routing function or with the node's own routing predicate –
+the levels of an n-way shard), and the STRICT variants of replica and cond (`replica2StrictImpl`, `cond2StrictImpl`:
 remove answers `.ok` only if every replica did; the real "best effort" remove is finding F-C13-3).
 `FCfg.toCfg` maps a tree to the `Cfg` the driver runs; for trees without replica/cond the two
 denotations are the same model (`interp_toCfg`).
@@ -27,9 +28,9 @@ inductive FCfg where
   | proxy (origin : FCfg) (cache : FCache) (max : Nat)
   | overlay (lower upper : FCfg)
   | shard2 (a b : FCfg)
+  | shardBy (r : Bytes → Bool) (a b : FCfg)  -- two-way shard with its own routing predicate (levels of an n-way shard)
   | replicaStrict (a b : FCfg)
   | condStrict (t e : FCfg)
-deriving Repr, DecidableEq
 
 def FCache.interp : FCache → Impl
   | .memCache sched max => faultLeaf (memCacheImpl max) sched
@@ -41,6 +42,7 @@ def FCfg.interp (route isSchema : Bytes → Bool) : FCfg → Impl
   | .proxy o c max => proxyImpl (o.interp route isSchema) c.interp max
   | .overlay l u => overlayImpl (l.interp route isSchema) (u.interp route isSchema)
   | .shard2 a b => shard2Impl route (a.interp route isSchema) (b.interp route isSchema)
+  | .shardBy r a b => shard2Impl r (a.interp route isSchema) (b.interp route isSchema)
   | .replicaStrict a b => replica2StrictImpl (a.interp route isSchema) (b.interp route isSchema)
   | .condStrict t e => cond2StrictImpl isSchema (t.interp route isSchema) (e.interp route isSchema)
 
@@ -55,6 +57,7 @@ def FCfg.toCfg : FCfg → Cfg
   | .proxy o c max => .proxy o.toCfg c.toCfg max
   | .overlay l u => .overlay l.toCfg u.toCfg
   | .shard2 a b => .shard2 a.toCfg b.toCfg
+  | .shardBy r a b => .shardBy r a.toCfg b.toCfg
   | .replicaStrict a b => .replica2 a.toCfg b.toCfg
   | .condStrict t e => .cond2 t.toCfg e.toCfg
 
@@ -65,6 +68,7 @@ def FCfg.strictFree : FCfg → Bool
   | .proxy o _ _ => o.strictFree
   | .overlay l u => l.strictFree && u.strictFree
   | .shard2 a b => a.strictFree && b.strictFree
+  | .shardBy _ a b => a.strictFree && b.strictFree
   | .replicaStrict _ _ => false
   | .condStrict _ _ => false
 
@@ -87,6 +91,10 @@ theorem FCfg.interp_toCfg (route isSchema : Bytes → Bool) :
     simp only [FCfg.toCfg, Stores.interp, FCfg.interp]
     rw [FCfg.interp_toCfg route isSchema l h.1, FCfg.interp_toCfg route isSchema u h.2]
   | .shard2 a b, h => by
+    simp only [FCfg.strictFree, Bool.and_eq_true] at h
+    simp only [FCfg.toCfg, Stores.interp, FCfg.interp]
+    rw [FCfg.interp_toCfg route isSchema a h.1, FCfg.interp_toCfg route isSchema b h.2]
+  | .shardBy r a b, h => by
     simp only [FCfg.strictFree, Bool.and_eq_true] at h
     simp only [FCfg.toCfg, Stores.interp, FCfg.interp]
     rw [FCfg.interp_toCfg route isSchema a h.1, FCfg.interp_toCfg route isSchema b h.2]
